@@ -47,7 +47,7 @@ FIELD = [
 ''', cid='write_field.contract'),
     ins(A.body_start(), '''
         let ghost w0 = w@;'''),
-    ins(A.text('let mut field_type = python_type;'), '''let ghost t0 = python_type@;
+    ins(A.text('let mut field_type = python_type.clone();'), '''let ghost t0 = python_type@;
         ''', where='before'),
     rep(A.text('decorators.join('), 'join_strs(&decorators, ', tag='T3', note='slice join'),
     ins(A.text('self.write_comments(w, true, &field.comments, 1)?;'), '''let ghost w1 = w@;
